@@ -162,15 +162,17 @@ def mixed_strategy():
     def build(n, mask, kind, mixed, a, b, d, pos, nt):
         allpairs = [(x, y) for x in range(n) for y in range(n) if x != y]
         pairs = [list(allpairs[i]) for i in range(len(allpairs)) if mask >> i & 1]
-        if mixed == "disj" and n < 2:
-            mixed = "delay"
+        if n == 1:
+            # a single subtask: only constraints that need no second subtask (release date, start(s) < end(s))
+            mixed = "global" if mixed in ("delay", "le", "global", "disj") else "start_end"
+            mask = 0
         if mixed in ("start_start", "end_end", "le", "disj", "start_end", "delay") and n >= 2 and a % n == b % n:
             b = a + 1
         return {"n": n, "pairs": pairs, "kind": kind, "extra": {"mixed": mixed, "a": a, "b": b, "d": d, "pos": pos, "nontemporal": nt}}
 
     return st.builds(
         build,
-        st.integers(2, 4),
+        st.integers(1, 4),
         st.integers(0, 4095),
         st.sampled_from(["tn", "method"]),
         st.sampled_from(MIXED_KINDS),
